@@ -15,6 +15,7 @@ using namespace em;
 struct Op {
   enum K { Set, Tamper, Build, Restart, RemoveOut } kind;
   int key = -1; std::string val; std::vector<int> bump;
+  long cancelStep = -1;   // Build only: cancel from inside this step of the build
 };
 
 struct CaseSpec {
@@ -88,7 +89,7 @@ static std::vector<Op> genHistory(vf::Rng& r, const Program& p, const std::strin
     unsigned x = (unsigned)r.below(100);
     if (x < 38) { Op o; o.kind = Op::Set; o.key = r.pick(inputs); o.val = std::to_string(r.below(4)); if (profile == "c03" && r.chance(1, 5)) { static const char* odd[] = {"", "\x00\x01", "\xff\xfe", "1.0", "01"}; unsigned w = (unsigned)r.below(5); o.val = w == 1 ? std::string("\x00\x01", 2) : std::string(odd[w]); } h.push_back(o); }
     else if (x < 43 && !extouts.empty()) { Op o; o.kind = r.chance(1, 3) ? Op::RemoveOut : Op::Tamper; o.key = r.pick(extouts); o.val = "tampered" + std::to_string(i); h.push_back(o); }
-    else if (x < 88) h.push_back(pickBuild());
+    else if (x < 88) { Op b = pickBuild(); if ((profile == "c03" || profile == "c01") && r.chance(1, 10)) b.cancelStep = 1 + (long)r.below(40); h.push_back(b); }
     else { Op o; o.kind = Op::Restart; if (sigs && r.chance(1, 3)) { size_t nb = 1 + r.below(2); for (size_t q = 0; q < nb; ++q) o.bump.push_back(r.pick(computed)); } h.push_back(o); }
   }
   if (h.back().kind != Op::Build) h.push_back(pickBuild());
@@ -102,7 +103,7 @@ static std::string histStr(const std::vector<Op>& h) {
     case Op::Set: s += "set#" + std::to_string(o.key) + "=" + vf::hex(o.val) + " "; break;
     case Op::Tamper: s += "tamper#" + std::to_string(o.key) + " "; break;
     case Op::RemoveOut: s += "rmout#" + std::to_string(o.key) + " "; break;
-    case Op::Build: s += "build#" + std::to_string(o.key) + " "; break;
+    case Op::Build: s += "build#" + std::to_string(o.key) + (o.cancelStep >= 0 ? "!cancel@" + std::to_string(o.cancelStep) : "") + " "; break;
     case Op::Restart: s += "restart"; for (int b : o.bump) s += "^" + std::to_string(b); s += " "; break;
     }
   }
@@ -198,7 +199,8 @@ static void checkDB(Ctx& cx, const std::string& path, uint32_t clientVersion, Ca
     const Result& r = results[it->second];
     if (toStr(r.value) != s.value) cx.viol("M-db: stored value differs from the value the task produced", cx.kdesc((int)k));
     if (r.signature.value != s.sig) cx.viol("M-db: stored signature differs", cx.kdesc((int)k));
-    if (r.builtAt < r.computedAt) cx.viol("M-db: built_at < computed_at", cx.kdesc((int)k));
+    if (r.builtAt != 0 && r.builtAt < r.computedAt) cx.viol("M-db: built_at < computed_at", cx.kdesc((int)k));   // built_at == 0 marks a record the engine invalidated
+    if (ep < r.computedAt) cx.viol("M-db: stored epoch smaller than a result's computed_at", cx.kdesc((int)k));
     if (ep < r.builtAt) cx.viol("M-db: stored epoch smaller than a result's built_at", cx.kdesc((int)k));
     std::vector<DepRec> got;
     for (auto d : r.dependencies) { int dk = cx.prog->find(rd.nameOf(d.keyID)); got.push_back({dk, d.orderOnly, d.singleUse}); }
@@ -273,7 +275,7 @@ static CaseResult runCase(const CaseSpec& spec, bool thorough) {
       if (sm < 0) sm = (spec.profile == "c06" || spec.profile == "c05") ? 1 : (sr.chance(2, 5) ? 1 : 0);
       cx.sched = sm == 0 ? Sched::S0Sync : sm == 3 ? Sched::S2Threads : Sched::S1Deferred;
       if (sm != 2) { cx.chooser = Chooser(); cx.chooser.random = true; cx.chooser.rng = vf::Rng(sr.next()); }
-      cx.cancelAtStep = (spec.cancelBuild == buildIdx && sm != 3) ? spec.cancelStep : -1;
+      cx.cancelAtStep = (spec.cancelBuild == buildIdx && sm != 3) ? spec.cancelStep : op.cancelStep;
       gHookCtx = &cx; gBuildActive = true;
       size_t execBefore = cx.nExecuted, utdBefore = cx.nUpToDate;
       cx.beginBuild(op.key);
@@ -514,6 +516,9 @@ int main(int argc, char** argv) {
         size_t n = std::min(ra.traces.size(), rb.traces.size());
         if (ra.traces.size() != rb.traces.size()) { Ctx::V v{"differential: the two executions performed a different number of builds", ""}; emitViolation(sb, v, &rb); ++t.violations; }
         for (size_t b = 0; b < n; ++b) {
+          // after a cancelled build the two executions legitimately differ in what they re-run (one engine still knows which tasks were
+          // interrupted, a restarted one only sees the database): from there on only the monitors of each run judge
+          if (ra.traces[b].find(" cancelled ") != std::string::npos || rb.traces[b].find(" cancelled ") != std::string::npos) break;
           const std::string& x = base.profile == "c20" ? ra.tracesNoPrior[b] : ra.traces[b];
           const std::string& y = base.profile == "c20" ? rb.tracesNoPrior[b] : rb.traces[b];
           if (x != y) {
